@@ -445,6 +445,25 @@ func c01RunB2(ops []string, canon *mc.Canon) (key, msg string) {
 	w := NewWriter(&out)
 	cur := &Result{Name: Name("Init"), Iters: 1, Values: []Value{{Value: 1, Unit: "u"}}}
 	var want []streamRec
+	// model of the edited result's configuration, kept by the harness: key → value and whether it is file
+	// configuration (every key parsed from text is; every key set through SetConfig is internal, whatever it was)
+	type mcfg struct {
+		val  string
+		file bool
+	}
+	model := map[string]mcfg{}
+	agree := func(op string) string {
+		if len(cur.Config) != len(model) {
+			return fmt.Sprintf("after %s: the result has %d configuration entries, the history implies %d (%v)", op, len(cur.Config), len(model), model)
+		}
+		for _, c := range cur.Config {
+			m, ok := model[c.Key]
+			if !ok || m.val != string(c.Value) || m.file != c.File {
+				return fmt.Sprintf("after %s: key %q is (%q, file=%v) in the result, the history implies (%q, file=%v, present=%v)", op, c.Key, c.Value, c.File, m.val, m.file, ok)
+			}
+		}
+		return ""
+	}
 	for _, op := range ops {
 		switch {
 		case strings.HasPrefix(op, "fill:"):
@@ -454,11 +473,28 @@ func c01RunB2(ops []string, canon *mc.Canon) (key, msg string) {
 					cur = r.Clone()
 				}
 			}
+			model = map[string]mcfg{}
+			for _, line := range strings.Split(op[5:], "\n") {
+				if k, v, ok := strings.Cut(line, ": "); ok && !strings.HasPrefix(line, "Benchmark") {
+					model[k] = mcfg{v, true}
+				}
+			}
+			if m := agree(op); m != "" {
+				return "", m
+			}
 		case strings.HasPrefix(op, "set:"):
 			k, v, _ := strings.Cut(op[4:], "=")
 			cur.SetConfig(k, v)
 			if m := configConsistent(cur); m != "" {
 				return "", "after " + op + ": " + m
+			}
+			if v == "" {
+				delete(model, k)
+			} else {
+				model[k] = mcfg{v, false}
+			}
+			if m := agree(op); m != "" {
+				return "", m
 			}
 		case op == "write":
 			s, _ := asStream(cur)
